@@ -14,6 +14,7 @@ import (
 	"io"
 	"os"
 	"strings"
+	"sync"
 	"testing"
 	"time"
 
@@ -59,14 +60,11 @@ type Reg struct {
 	Pubkey       string `json:"pubkey"` // 48 bytes
 }
 
-// Input is one signing request and the world it is made in.
-type Input struct {
-	Chain   ChainDesc `json:"chain"`
-	Absent  []string  `json:"absent,omitempty"` // optional domain types missing from the chain spec: sync, syncsel, contrib, builder
-	DomFail bool      `json:"dom_fail,omitempty"`
-	Kind    string    `json:"kind"` // attestation attestations proposal randao slotsel syncsel aggregate syncroots contributions registration
-	Pool    []Acc     `json:"pool"`
-	Batch   []int     `json:"batch"` // positions in Pool, in request order (single-account kinds use Batch[0])
+// Req is one signing request: the method called and its arguments.
+type Req struct {
+	DomFail bool   `json:"dom_fail,omitempty"` // the domain provider answers this request's calls with an error
+	Kind    string `json:"kind"`               // attestation attestations proposal randao slotsel syncsel aggregate syncroots contributions registration
+	Batch   []int  `json:"batch"`              // positions in Pool, in request order (single-account kinds use Batch[0])
 
 	Slot  uint64   `json:"slot,omitempty"`
 	Epoch uint64   `json:"epoch,omitempty"`
@@ -88,8 +86,46 @@ type Input struct {
 	Contribs []Contrib `json:"contribs,omitempty"`
 	Reg      *Reg      `json:"reg,omitempty"`
 	RegMode  string    `json:"reg_mode,omitempty"` // "" ok | nil | nilv1 | version
+}
+
+// Input is a session: the world (chain, chain spec, the account manager's accounts), ONE signer
+// service built in it, and the requests made to that one service instance: the first (the embedded
+// Req; an input without "then" is a single request on a fresh service, as every input was before
+// sessions existed) and then the requests of Then, in order -- or, when Concurrent, the first one
+// alone and then all of Then at once from as many goroutines.  Every request of a session gives
+// one case; each is compared with the model of that request alone (the service keeps nothing from
+// one request to the next), and the property is evaluated on each.
+type Input struct {
+	Chain  ChainDesc `json:"chain"`
+	Absent []string  `json:"absent,omitempty"` // optional domain types missing from the chain spec: sync, syncsel, contrib, builder
+	Pool   []Acc     `json:"pool"`
+	Req
+	Then       []Req `json:"then,omitempty"`
+	Concurrent bool  `json:"concurrent,omitempty"`
 
 	Tags []string `json:"tags,omitempty"`
+}
+
+// steps are the requests of the session in order.
+func (in Input) steps() []Req { return append([]Req{in.Req}, in.Then...) }
+
+// view is the k-th request of the session as a single-request input in the same world.
+func (in Input) view(k int) Input {
+	v := in
+	v.Req = in.steps()[k]
+	v.Then, v.Concurrent, v.Tags = nil, false, nil
+	return v
+}
+
+// prefix is the session up to and including its k-th request (what has to be replayed to see the
+// k-th request's outcome again).
+func (in Input) prefix(k int) Input {
+	v := in
+	v.Then = append([]Req(nil), in.Then[:k]...)
+	if k == 0 {
+		v.Then, v.Concurrent = nil, false
+	}
+	return v
 }
 
 func (in Input) absent(name string) bool {
@@ -143,6 +179,8 @@ type Observed struct {
 	Verified []bool   `json:"verified,omitempty"` // BLS verification against the spec root
 	Roots    []string `json:"roots,omitempty"`    // harness-computed spec signing roots (hex)
 	Domains  []string `json:"domain_calls,omitempty"`
+	// in the sample of a later request of a session: what the earlier requests gave
+	Earlier []Observed `json:"earlier_requests,omitempty"`
 }
 
 func root32(s string) phase0.Root { return phase0.Root(toChunk(unhex(s))) }
@@ -203,10 +241,12 @@ func specRoots(in Input) []chunk {
 	return out
 }
 
-func runInput(t *testing.T, in Input, level zerolog.Level) Observed {
+// runInput builds ONE signer service and ONE set of accounts and makes the session's requests to
+// them; the result has one Observed per request.
+func runInput(t *testing.T, in Input, level zerolog.Level) []Observed {
 	initBLS()
 	ctx := context.Background()
-	dp := &domainProvider{chain: in.Chain, fail: in.DomFail}
+	dp := &domainProvider{chain: in.Chain}
 	svc, err := standardsigner.New(ctx,
 		standardsigner.WithLogLevel(level),
 		standardsigner.WithMonitor(nullmetrics.New()),
@@ -224,6 +264,34 @@ func runInput(t *testing.T, in Input, level zerolog.Level) Observed {
 		pool[i] = newAccount(d, rec)
 		bases[i] = pool[i].(baser).theBase()
 	}
+	steps := in.steps()
+	res := make([]Observed, len(steps))
+	if !in.Concurrent {
+		for k := range steps {
+			res[k] = runStep(t, svc, dp, rec, pool, bases, in.view(k))
+		}
+		return res
+	}
+	res[0] = runStep(t, svc, dp, rec, pool, bases, in.view(0))
+	var wg sync.WaitGroup
+	start := make(chan struct{})
+	for k := 1; k < len(steps); k++ {
+		wg.Add(1)
+		go func(k int) {
+			defer wg.Done()
+			<-start
+			res[k] = runStep(t, svc, dp, rec, pool, bases, in.view(k))
+		}(k)
+	}
+	close(start)
+	wg.Wait()
+	return res
+}
+
+// runStep makes one request (in is a single-request view of the session) to the session's service.
+func runStep(t *testing.T, svc *standardsigner.Service, dp *domainProvider, rec *recorder, pool []e2wtypes.Account, bases []*base, in Input) Observed {
+	env := &stepEnv{fail: in.DomFail}
+	ctx := withStepEnv(context.Background(), env)
 	accounts := make([]e2wtypes.Account, len(in.Batch))
 	for i, p := range in.Batch {
 		accounts[i] = pool[p]
@@ -305,10 +373,12 @@ func runInput(t *testing.T, in Input, level zerolog.Level) Observed {
 			}
 			one(svc.SignValidatorRegistration(ctx, first, reg))
 		default:
-			t.Fatalf("unknown kind %q", in.Kind)
+			panic(fmt.Sprintf("harness: unknown kind %q", in.Kind))
 		}
 	}()
-	obs.Domains = dp.calls
+	env.mu.Lock()
+	obs.Domains = append([]string(nil), env.calls...)
+	env.mu.Unlock()
 	if obs.Outcome == "panic" {
 		return obs
 	}
@@ -324,11 +394,7 @@ func runInput(t *testing.T, in Input, level zerolog.Level) Observed {
 		case s == zero:
 			obs.Sigs = append(obs.Sigs, "PZero")
 		default:
-			if term, ok := rec.prov[string(s[:])]; ok {
-				obs.Sigs = append(obs.Sigs, term)
-			} else {
-				obs.Sigs = append(obs.Sigs, "PUnknown")
-			}
+			obs.Sigs = append(obs.Sigs, rec.provenance(env, s[:]))
 		}
 		ok := false
 		if i < len(roots) && i < len(in.Batch) && s != zero {
@@ -445,8 +511,7 @@ var kinds = []string{"attestation", "attestations", "proposal", "randao", "slots
 
 func TestC06(t *testing.T) {
 	col := NewCollector("C06", "Check.C06",
-		"one signing request of one of the ten Sign* methods (nine duty kinds; attestations single and batched) against a generated fork schedule and account pool; non-trivial = the service returned at least one non-zero signature, every one of which was BLS-verified; distinct by the full request text")
-	col.ShardSize = EnvInt("VERIF_C06_SHARD", 50)
+		"one signing request of one of the ten Sign* methods (nine duty kinds; attestations single and batched) against a generated fork schedule and account pool, made to a fresh signer service or as a later request of a session on one service instance (one case per request of a session); non-trivial = the service returned at least one non-zero signature, every one of which was BLS-verified; distinct by the full text of the session up to and including the request")
 	n := EnvInt("VERIF_N", 400)
 	// the harness's own merkleisation must agree with the libraries' HashTreeRoot
 	if _, err := libraryVectors(NewRand(Seed() + 77)); err != nil {
@@ -459,39 +524,57 @@ func TestC06(t *testing.T) {
 	}
 	rng := NewRand(Seed())
 	for i := 0; i < n; i++ {
-		ins = append(ins, gen(rng.Fork(), i))
+		r := rng.Fork()
+		if i%sessionEvery == sessionEvery-1 {
+			// every sessionEvery-th input is a session of several requests on one service instance
+			ins = append(ins, genSession(r, i/sessionEvery))
+		} else {
+			ins = append(ins, gen(r, i-i/sessionEvery))
+		}
 	}
 	// the property must not depend on the log level (SignBeaconAttestations has trace-only code):
-	// in the thorough tier every other case runs at trace level (output discarded)
+	// in the thorough tier every other input runs at trace level (output discarded)
 	trace := os.Getenv("VERIF_TIER") == "thorough"
 	if trace {
 		zerologger.Logger = zerologger.Output(io.Discard)
 	}
 	for k, in := range ins {
-		in.Tags = append(in.Tags, derivedTags(in)...)
 		level := zerolog.Disabled
 		if trace && k%2 == 1 {
 			level = zerolog.TraceLevel
 			col.Count("log-level:trace")
 		}
-		obs := runInput(t, in, level)
-		col.Count("kind:" + in.Kind)
-		col.Count("outcome:" + in.Kind + ":" + obs.Outcome)
-		for _, tg := range in.Tags {
-			col.Count("family:" + tg)
+		all := runInput(t, in, level)
+		if len(all) > 1 {
+			col.Count("sessions")
+			col.Count(fmt.Sprintf("session-length:%d", min(len(all), 9)))
 		}
-		nonzero := 0
-		for _, s := range obs.Sigs {
-			if s != "PZero" {
-				nonzero++
+		for j, obs := range all {
+			v := in.view(j)
+			tags := append(append(append([]string{}, in.Tags...), derivedTags(v)...), sessionTags(in, j)...)
+			col.Count("kind:" + v.Kind)
+			col.Count("outcome:" + v.Kind + ":" + obs.Outcome)
+			for _, tg := range tags {
+				col.Count("family:" + tg)
 			}
+			nonzero := 0
+			for _, s := range obs.Sigs {
+				if s != "PZero" {
+					nonzero++
+				}
+			}
+			col.Count(fmt.Sprintf("batch-size:%d", min(len(v.Batch), 9)))
+			id := col.NextID()
+			upto := in.prefix(j)
+			key, _ := json.Marshal(upto)
+			sample := obs
+			sample.Earlier = all[:j]
+			col.Add(Case{Term: term(id, v, obs), Key: string(key), Nontrivial: obs.Outcome == "ok" && nonzero > 0, Tags: tags,
+				Sample: map[string]any{"input": upto, "observed": sample}})
 		}
-		col.Count(fmt.Sprintf("batch-size:%d", min(len(in.Batch), 9)))
-		id := col.NextID()
-		key, _ := json.Marshal(in)
-		col.Add(Case{Term: term(id, in, obs), Key: string(key), Nontrivial: obs.Outcome == "ok" && nonzero > 0, Tags: in.Tags,
-			Sample: map[string]any{"input": in, "observed": obs}})
 	}
+	// at most eight shards (the check evaluates eight at a time), none smaller than 50 cases
+	col.ShardSize = EnvInt("VERIF_C06_SHARD", max(50, (int(col.NextID())+7)/8))
 	if err := col.Flush(); err != nil {
 		t.Fatal(err)
 	}
